@@ -38,12 +38,14 @@ func main() {
 	}
 	a := vh.ParseArgs()
 	switch a.Mode {
+	case "nhchild":
+		nhChild(a)
 	case "gen":
 		gen(a)
 	case "run":
 		st := vh.NewStats(statsRule)
 		obs := vh.Create(a.Out + "/impl.obs")
-		var crashLines, crashSeqLines []string
+		var crashLines, crashSeqLines, nhLines []string
 		for _, line := range vh.ReadLines(a.Cases) {
 			switch k := caseKind(line); {
 			case k == "kv":
@@ -54,6 +56,8 @@ func main() {
 				runTanLine(line, obs, st)
 			case k == "crash":
 				crashLines = append(crashLines, line)
+			case k == "nhfail":
+				nhLines = append(nhLines, line)
 			case k == "crashtorn":
 				runCrashTornLine(line, obs, st)
 			case k == "crashseq":
@@ -64,6 +68,7 @@ func main() {
 		}
 		runCrashLines(crashLines, a.Tier, obs, st)
 		runCrashSeqLines(crashSeqLines, obs, st)
+		runNhFailLines(nhLines, a.Out, obs, st)
 		obs.Close()
 		st.Write(a.Out)
 	}
